@@ -10,6 +10,11 @@ _RX = re.compile(r"^([A-Za-z][A-Za-z0-9+.\-]*)://(?:[^/?#@]*@)?(\[[^\]]*\]|[^:/?
 
 def ind_origin(url):
     """-> (scheme, host, port) with lower-cased scheme/host, brackets stripped, default port filled in."""
+    if isinstance(url, dict):  # explicit components (driver.mk_url); host may be a list of byte values
+        as_text = lambda v: (bytes(v) if not isinstance(v, str) else v.encode("latin1")).decode("latin1")
+        scheme = as_text(url["scheme"]).lower()
+        port = url.get("port") if url.get("port") is not None else DEFAULT_PORTS.get(scheme)
+        return (scheme, as_text(url["host"]).lower().strip("[]"), port)
     if hasattr(url, "scheme") and hasattr(url, "host"):  # an httpcore.URL built from explicit components
         scheme = bytes(url.scheme).decode("latin1").lower()
         host = bytes(url.host).decode("latin1").lower()
@@ -31,4 +36,4 @@ def make_origin(key):
     can_handle_request(); identity is never decided by comparing these objects)."""
     import httpcore
 
-    return httpcore.Origin(scheme=key[0].encode(), host=key[1].encode(), port=key[2])
+    return httpcore.Origin(scheme=key[0].encode("latin1"), host=key[1].encode("latin1"), port=key[2])
